@@ -377,6 +377,20 @@ var All = []Prog{
 			return "fired"
 		}
 	}, []string{"fired"}},
+	{"timer/reset-after-fire", func() string {
+		t := time.NewTimer(time.Millisecond)
+		<-t.C
+		was := t.Reset(time.Millisecond)
+		<-t.C
+		return fmt.Sprint("fired twice, Reset=", was)
+	}, []string{"fired twice, Reset=false"}},
+	{"timer/stop-then-reset", func() string {
+		t := time.NewTimer(time.Hour)
+		stopped := t.Stop()
+		was := t.Reset(time.Millisecond)
+		<-t.C
+		return fmt.Sprint(stopped, was)
+	}, []string{"false false", "true false"}},
 	{"pool/put-get", func() string {
 		p := sync.Pool{New: func() any { return "new" }}
 		p.Put("old")
